@@ -177,7 +177,7 @@ fn main() {
                         let opts = Opts { abort: false, misuse: false, steps: false, max_states: 1000000, single: true, paths: 0, seed };
                         let mut ex = Map::new();
                         ex.insert("fam".into(), json!(format!("big:{}:{}", jb.family, jb.pattern)));
-                        let links = Links { pathkey: String::new(), exact: None };
+                        let links = Links { pathkey: String::new(), exact: None, faultfree: true };
                         let r = explore_ctx(&mut wr, &w0, &EvalCfg::default(), &opts, &ex, &links, &mut stats);
                         if let Some(e) = r.ends.iter().find(|e| e.clean) {
                             let w1 = ppg2verif::chain::world_after(&w0, e);
